@@ -353,6 +353,23 @@ def item_concat_set_keep(repo, out):
         if v not in (None, 'self._' + what, what):
             raise TranslateError('%s:_set_keep: members get %s=%s (expected self._%s)' % (rel, what, v, what))
     out.append('Definition concat_super_set_keep_args : list string := %s.' % coq_strings(sup))
+    # the only other override of _set_keep (VisibilityDataV4) hands all five parameters to DataSet._set_keep first
+    overriding = []
+    for rel2, cname in (('katdal/visdatav4.py', 'VisibilityDataV4'), ('katdal/h5datav3.py', 'H5DataV3'),
+                        ('katdal/h5datav2.py', 'H5DataV2')):
+        c2 = _class(_parse(repo, rel2), cname, rel2)
+        fns = [n for n in c2.body if isinstance(n, ast.FunctionDef) and n.name == '_set_keep']
+        if not fns:
+            continue
+        b2 = [s for s in fns[0].body if not (isinstance(s, ast.Expr) and isinstance(s.value, ast.Constant))]
+        if not b2 or _norm(b2[0]) != 'super()._set_keep(time_keep,freq_keep,corrprod_keep,weights_keep,flags_keep)' \
+                or [a.arg for a in fns[0].args.args] != ['self', 'time_keep', 'freq_keep', 'corrprod_keep', 'weights_keep', 'flags_keep']:
+            raise TranslateError('%s:%s._set_keep does not start with super()._set_keep(<its five parameters>)' % (rel2, cname))
+        for n in ast.walk(fns[0]):
+            if isinstance(n, ast.Name) and n.id in ('flags_keep', 'weights_keep') and isinstance(n.ctx, ast.Store):
+                raise TranslateError('%s:%s._set_keep rebinds %s' % (rel2, cname, n.id))
+        overriding.append(cname)
+    out.append('Definition set_keep_overridden_by : list string := %s.' % coq_strings(overriding))
     out.append('Definition concat_member_keep_args : list (string * string) := [%s].'
                % '; '.join('(%s, %s)' % (coq_string(k), coq_string(v)) for k, v in kws if k in ('weights_keep', 'flags_keep')))
     props = []
